@@ -192,12 +192,9 @@ func genRec(r *gen.R, op string, validOnly bool) recCase {
 		for i := range acts {
 			acts[i] = pool[r.Intn(3)]
 		}
-		if validOnly { // keep the recurrence bounded
-			acts = []string{"tanh"}
-			if op == "GRU" {
-				acts = []string{"sigmoid", "tanh"}
-			} else if op == "LSTM" {
-				acts = []string{"sigmoid", "tanh", "tanh"}
+		if validOnly { // keep the recurrence bounded: any combination of the two bounded functions
+			for i := range acts {
+				acts[i] = pool[r.Intn(2)]
 			}
 		}
 		c.at.Activations = acts
